@@ -57,9 +57,8 @@ func (b *exampleBuilder) buildExampleForObjectNode(node *internalSchema.ObjectNo
 	defer exampleBufferPool.Put(buf)
 
 	buf.WriteRune('{')
-	children := node.Children()
-	length := len(children)
-	for i, childNode := range children {
+	first := true
+	for i, childNode := range node.Children() {
 		ex, err := b.Build(childNode)
 		if err != nil {
 			return nil, err
@@ -74,13 +73,17 @@ func (b *exampleBuilder) buildExampleForObjectNode(node *internalSchema.ObjectNo
 			return nil, err
 		}
 
+		// The separator depends on what was emitted, not on the position:
+		// children cut off by the recursion guard are skipped.
+		if !first {
+			buf.WriteRune(',')
+		}
+		first = false
+
 		buf.WriteRune('"')
 		buf.Write(k)
 		buf.WriteString(`":`)
 		buf.Write(ex)
-		if i+1 != length {
-			buf.WriteRune(',')
-		}
 	}
 	buf.WriteRune('}')
 	return buf.Bytes(), nil
@@ -88,7 +91,7 @@ func (b *exampleBuilder) buildExampleForObjectNode(node *internalSchema.ObjectNo
 
 func (b *exampleBuilder) buildObjectKey(k internalSchema.ObjectNodeKey) ([]byte, error) {
 	if !k.IsShortcut {
-		return []byte(k.Key), nil
+		return rawObjectKey(k), nil
 	}
 
 	typ, ok := b.types[k.Key]
@@ -103,6 +106,18 @@ func (b *exampleBuilder) buildObjectKey(k internalSchema.ObjectNodeKey) ([]byte,
 	return stdBytes.Trim(ex, `"`), nil
 }
 
+// rawObjectKey returns the key as it is written in the schema, escape sequences
+// included, without the surrounding quotes: the decoded key may contain quotes,
+// backslashes or control characters and cannot be emitted verbatim.
+func rawObjectKey(k internalSchema.ObjectNodeKey) []byte {
+	if k.Lex.File() != nil {
+		if raw := k.Lex.Value(); len(raw) >= 2 && raw[0] == '"' && raw[len(raw)-1] == '"' {
+			return raw[1 : len(raw)-1]
+		}
+	}
+	return []byte(k.Key)
+}
+
 func (b *exampleBuilder) buildExampleForArrayNode(node *internalSchema.ArrayNode) ([]byte, error) {
 	if node.Constraint(constraint.TypesListConstraintType) != nil {
 		return nil, errors.ErrUserTypeFound
@@ -112,9 +127,8 @@ func (b *exampleBuilder) buildExampleForArrayNode(node *internalSchema.ArrayNode
 	defer exampleBufferPool.Put(buf)
 
 	buf.WriteRune('[')
-	children := node.Children()
-	length := len(children)
-	for i, childNode := range children {
+	first := true
+	for _, childNode := range node.Children() {
 		ex, err := b.Build(childNode)
 		if err != nil {
 			return nil, err
@@ -124,10 +138,12 @@ func (b *exampleBuilder) buildExampleForArrayNode(node *internalSchema.ArrayNode
 			continue
 		}
 
-		buf.Write(ex)
-		if i+1 != length {
+		if !first {
 			buf.WriteRune(',')
 		}
+		first = false
+
+		buf.Write(ex)
 	}
 	buf.WriteRune(']')
 	return buf.Bytes(), nil
